@@ -356,7 +356,11 @@ def elementwise_case(c, idx, p, cplx, exact):
         for name, f, model in (("mnorm1", lambda: mp.mnorm(A, 1), Norm1(V(0))),
                                ("mnorminf", lambda: mp.mnorm(A, mp.inf), NormInf(V(0)))):
             c.count(name)
-            v = f()
+            try:
+                v = f()
+            except Exception as e:  # noqa
+                r = dict(base); r.update({"kind": name + "_raises", "exception": repr(e)})
+                c.pyviol("%s raised %r on a %dx%d matrix" % (name, e, m, n), r); continue
             if exact:
                 kc = const_of(v)
                 checks.append((name + "_exact", And(Le(model, kc), Le(kc, model))))
@@ -366,7 +370,11 @@ def elementwise_case(c, idx, p, cplx, exact):
                                                        Le(kc, SMul(Const((1 << p) + 1, p), model)))))
     # Frobenius norm: within one ulp of the square root of frob2 (squared comparison)
     c.count("norm2")
-    N = mp.norm(A, 2)
+    try:
+        N = mp.norm(A, 2)
+    except Exception as e:  # noqa
+        r = dict(base); r.update({"kind": "norm2_raises", "exception": repr(e)})
+        c.pyviol("norm(A, 2) raised %r" % (e,), r); N = mp.mpf(0)
     if N != 0:
         s, man, ex, bc = N._mpf_
         u = mp.ldexp(mp.mpf(1), ex + bc - p)
